@@ -330,10 +330,22 @@ impl SDJWTVerifier {
                         .ok_or(Error::InvalidArrayDisclosureObject(
                             value_for_digest.to_string(),
                         ))?;
+                if disclosure.len() != 3 {
+                    return Err(Error::InvalidDisclosure(format!(
+                        "Disclosure of an object property must have three elements: {}",
+                        value_for_digest
+                    )));
+                }
                 let key = disclosure[1]
                     .as_str()
                     .ok_or(Error::ConversionError("str".to_string()))?
                     .to_owned();
+                if key == SD_DIGESTS_KEY || key == SD_LIST_PREFIX {
+                    return Err(Error::InvalidDisclosure(format!(
+                        "Disclosed claim name cannot be `{}`",
+                        key
+                    )));
+                }
                 let value = disclosure[2].clone();
                 if pre_output.contains_key(&key) {
                     return Err(Error::DuplicateKeyError(key.to_string()));
@@ -370,6 +382,12 @@ impl SDJWTVerifier {
                         value_for_digest.to_string(),
                     ))?;
 
+            if disclosure.len() != 2 {
+                return Err(Error::InvalidArrayDisclosureObject(format!(
+                    "Disclosure of an array element must have two elements: {}",
+                    value_for_digest
+                )));
+            }
             let value = disclosure[1].clone();
             let unpacked_value = self.unpack_disclosed_claims(&value)?;
             return Ok(Some(unpacked_value));
